@@ -352,7 +352,7 @@ impl Property for C05 {
     }
 
     fn budget(tier: Tier) -> u64 {
-        tier.pick(16_000, 300_000)
+        tier.pick(16_000, 160_000)
     }
 
     fn level() -> &'static str {
